@@ -637,8 +637,9 @@ func (s *Server) handleRequest(req *dhcpv4.DHCPv4) (*dhcpv4.DHCPv4, error) {
 
 		// Allocate or verify the requested IP
 		// When using Nexus (HTTPAllocator), accept the Nexus-allocated IP
-		// even if it's outside the local pool range
-		if s.httpAllocator != nil && s.httpAllocatorPool != "" {
+		// even if it's outside the local pool range - but only the address Nexus
+		// holds for this client; anything else goes through the local pool checks
+		if s.nexusHolds(ctx, mac, requestedIP) {
 			s.logger.Debug("Accepting Nexus-allocated IP in REQUEST",
 				zap.String("mac", mac.String()),
 				zap.String("ip", requestedIP.String()),
@@ -869,6 +870,16 @@ func (s *Server) handleRequest(req *dhcpv4.DHCPv4) (*dhcpv4.DHCPv4, error) {
 
 	atomic.AddUint64(&s.acksTotal, 1)
 	return resp, nil
+}
+
+// nexusHolds reports whether the HTTP allocator is configured and its allocation
+// for this client is exactly ip.
+func (s *Server) nexusHolds(ctx context.Context, mac net.HardwareAddr, ip net.IP) bool {
+	if s.httpAllocator == nil || s.httpAllocatorPool == "" || ip == nil {
+		return false
+	}
+	allocated, _, _, err := s.httpAllocator.LookupIPv4(ctx, mac.String(), s.httpAllocatorPool)
+	return err == nil && allocated.Equal(ip)
 }
 
 // handleRelease handles DHCP RELEASE
